@@ -278,10 +278,16 @@ func runC15(c *Ctx, w *World, r *Report) {
 					bad = "Get1 must return 1 for a position below Offset"
 				}
 			case strings.HasSuffix(n, ".Get"):
-				tab, ti, ok := asElemLoad(ret.Results[0])
-				ox, oj, ok2 := asLowMask(ti)
-				if !ok || !ok2 || !isGlobal(tab, "bitmap", "Bit") || oj != 6 || stripConv(ox) != idx {
-					bad = "Get must return Bit[idx&63] for a position below Offset"
+				ms, ok := fa.MaskOf(ret.Results[0])
+				var ox ssa.Value
+				oj, ok2 := 0, false
+				if ok && ms.Kind == "bit" {
+					if ti := fa.AtomValueOfLin(ms.N); ti != nil {
+						ox, oj, ok2 = asLowMask(ti)
+					}
+				}
+				if !ok || !ok2 || oj != 6 || stripConv(ox) != idx {
+					bad = "Get must return the single bit idx&63 (Bit[idx&63] or 1<<(idx&63)) for a position below Offset"
 				}
 			case strings.HasSuffix(n, ".Set"):
 				// no store on this edge: the return block is reached directly from the split
